@@ -28,9 +28,7 @@ ALPH = "a'\\\x00%"
 
 
 def _may_sql(f, e):
-    """reference with the SQL backend's documented reading of bare single-letter tags as value ''"""
-    e2 = dict(e, tags=[(t if len(t) > 1 else [t[0], ""]) for t in e["tags"]])
-    return nip01.may(f, e2)
+    return nip01.may(f, e)
 
 
 @obligation(funcs=["storage.db.Subscription.build_query", "storage.db.Subscription.evaluate_filter",
